@@ -421,7 +421,10 @@ def run_ref_client(plan, c):
         o = _call_step(step, objs, results, findings, [None, c, k], type_only, iso)
         results[k] = o
         out[k] = _enc_outcome(o)
+    bufs = [results[k][1] for k in results if results[k][0] == 'ok' and plan['clients'][c]['steps'][k]['fn'] == 'caller.alloc']
     for k in sorted(results):
+        if results[k][0] == 'ok' and any(_aliases(results[k][1], b) for b in bufs):
+            continue
         if (results[k][0] == 'ok' and _has_array(results[k][1]) and _enc_outcome(results[k]) != out[k]
                 and not plan['clients'][c]['steps'][k]['fn'].startswith('caller.')):
             f0 = plan['clients'][c]['steps'][k]['fn']
@@ -487,6 +490,10 @@ def run_sim(plan, stats):
                 findings.append({'oracle': 'P1', 'key': 'P1pool:%s' % step['fn'], 'where': [si, c, k], 'fn': step['fn'],
                                  'detail': 'shared pool object %d (%s) changed during %s' % (pi, plan['pool'][pi]['kind'], step['fn'])})
                 base[pi] = worlds.snapshot(obj)
+        if step['fn'] == 'caller.fill' and o[0] == 'ok':
+            for (cc, kk) in list(live):
+                if _aliases(results[cc][kk][1], o[1]):
+                    live.discard((cc, kk))
         # P3: a result, once returned, never changes (no view into a buffer the library reuses)
         for (cc, kk) in list(live):
             if results[cc][kk][0] == 'ok' and _enc_outcome(results[cc][kk]) != encs[cc][kk]:
@@ -512,6 +519,23 @@ def run_sim(plan, stats):
     for s, n in poison_sites.items():
         bump('poison.' + s, n)
     return encs, findings, events, {'dups': ndup, 'poison_hits': sum(poison_sites.values())}
+
+
+def _arrays(v, depth=0):
+    if isinstance(v, np.ndarray):
+        return [v]
+    if isinstance(v, (list, tuple, dict)) and depth < 3:
+        out = []
+        for x in (v.values() if isinstance(v, dict) else v):
+            out.extend(_arrays(x, depth + 1))
+        return out
+    return []
+
+
+def _aliases(v, buf):
+    """Does result v (possibly) share memory with the caller-owned array buf?  A view of the caller's own
+    buffer legitimately changes when the caller refills the buffer."""
+    return any(np.may_share_memory(a, buf) for a in _arrays(v))
 
 
 def _has_array(v, depth=0):
